@@ -24,6 +24,25 @@ CLAIMS = {
  "C18": ("bounded symbolic model checking of the real clientIDMap against a 'last capacity Sets' reference for every Set/Get history up to the bound and capacities 0..3, and of clientAddr with net.ParseIP as an uninterpreted function",
          "net.ParseIP / TCPAddr.String are uninterpreted; KCP session identity outside the claim", SEQ),
 }
+CLAIMS.update({
+ "C07": ("regex bridge: the scrubber's pattern constants are extracted from the SSA of safelog's init on every run, translated (regexp/syntax -> SMT-LIB regex theory) and, per reference address family and delimiter context, the solver decides that no text containing such an address lacks a match (language inclusion, unbounded length); the engine decides that Scrub returns a fixpoint of the one-pass replacement and that LogScrubber.Write emits exactly the complete lines independently of write splitting; solver-generated multi-address lines are run through the real Scrub",
+         "Go's regexp engine is trusted to implement the language of its pattern; the translation is cross-validated against Go's regexp on sample strings on every run; address forms without zones; concurrent writers not interleaved",
+         "regexp/syntax -> SMT regex theory (z3 5.1.0 || cvc5 portfolio) + symbolic execution of go/ssa for Scrub's structure and the line buffer"),
+ "C10": ("partial: bounded symbolic model checking of the armor encoder (one inductive step from any counter state: words <=32 bytes, elements <=32 KiB, balanced pre elements, every byte once), the whitespace splitter (bufio.SplitFunc contract, maximal tokens) and the decoder's state machine over an arbitrary token source",
+         "the end-to-end round trip runs through x/net/html's tokenizer, encoding/base64's streaming decoder and an io.Pipe goroutine and is outside the claim", SEQ),
+ "C11": ("partial: symbolic execution of EncodePath/DecodePath with the real encoding/base64 (round trip for every poll up to the bound, any padding), limitedRead and both client Exchange methods (fronting, status, 100 KB limit with real 100000/100001-byte bodies), the broker's AMP endpoint (decoded path handed to ClientOffers, exactly its response armored) and the domain-prefix selection/fallback label",
+         "net/url, http.NewRequest, amp.CacheURL's path construction, IDNA and the SHA-256 value are stubbed/outside", SEQ),
+ "C14": ("symbolic execution of the real HTTP handlers with a recording ResponseWriter: every endpoint x method x body outcome returns (no panic, no hang) and a follow-up poll is still answered; legacy client requests map to the versioned outcome for every NAT header value",
+         "net/http's own request parsing, real 100 KB bodies, /prometheus and the /metrics file are outside; proxy polls that wait in RequestOffer are C04's scenarios", SEQ),
+ "C15": ("bounded symbolic model checking of the real Peers / connectLoop / NewWebRTCPeerWithEvents code: every sequence of collect / peer-closes-on-its-own / pop / End up to the bound (sequential), End racing Collect and End with a clogged spare queue under every schedule, and every combination of pion/rendezvous failures in one connection attempt",
+         "pion API stubbed by contract (arbitrary success/failure; methods dereference their receiver); SOCKS layer and process exit status outside", SEQ + "; schedule choices enumerated with sleep sets; deadlock/leak oracle"),
+ "C16": ("symbolic execution of the real runSession / datachannelHandler / pollOffer / tokens code with the broker, pion and gorilla as arbitrary-outcome stubs: the slot is released exactly once on every exit path, the semaphore never exceeds N for every get/ret history up to the bound, and the load reported in two consecutive polls is a multiple of 8 not above the slots in use",
+         "timer-vs-open simultaneity and several data channels per client are outside the property's quantifier", SEQ),
+ "C17": ("bounded symbolic model checking of RedialPacketConn under every schedule (carrier directions failing in any order; leak oracle: no goroutine retained per redial or after Close), of QueuePacketConn for every operation sequence up to the bound (per-address FIFO, no aliasing, drop when full, fail after Close) and of the client map with an explicit symbolic clock against a reference map",
+         "context.WithCancel stubbed; time arithmetic as integer nanoseconds; redial counts beyond the bound outside", SEQ + "; schedule choices enumerated with sleep sets; leak oracle"),
+ "C19": ("partial: binCount for every count < 2^53 in the SMT floating-point theory; the rounded Prometheus counter by an inductive step and under every interleaving of two concurrent Incs; printMetrics pairs each label with its own counter and zeroMetrics resets all of them; unique-address figures for every update sequence up to the bound",
+         "HyperLogLog accuracy, HMAC masking, the journal reader and prometheus exposition are outside the claim", SEQ + " (QF_BV + FloatingPoint)"),
+})
 REASONS = {
  "C01": "end-to-end exactly-once in-order delivery is produced by kcp-go/smux/pion/gorilla running in three processes under faults; ~40k lines of third-party I/O- and timer-driven code cannot be encoded by an SSA->SMT executor, and stubbing KCP/smux away removes the mechanism the property is about (DESIGN.md §4 C01); its repo-owned links are decided under C05, C09, C17, C18",
 }
